@@ -928,5 +928,23 @@ def mv_eq(ctx):
                     y not in lp.blocks and body.blocks[y]['term']['k'] != 'unreachable' for y in edges_.get(e, []))]
                 if atom_hits.get(side) and leaving:
                     errs.append('the scan over side %d can stop before every value was looked for on the other side' % side)
+    if not errs:
+        # .. and `true` is never answered on a path that has not run both scans (a shortcut may answer `false` - different
+        # lengths - but never `true`)
+        from .loops import loops_of
+        rcu = Reach(facts, body, Evaluator(facts))
+        for lp in loops_of(it):
+            side = 1 if lp.whole_over(1, (vf,)) else 2 if lp.whole_over(2, (vf,)) else None
+            if side is None or not atom_hits.get(side):
+                continue
+            region = rcu._reach(0, {lp.head})
+            for rb in rcu.return_blocks():
+                if rb in region:
+                    vals_ = rcu._values_at(0, rb, 0, region, 0)
+                    if 1 in vals_ or None in vals_:
+                        errs.append('equality can be answered with `true` on a path that never scans the values of side %d' % side)
+                        break
+            if errs:
+                break
     ctx.check(not errs, 'eq', body, 'order-insensitive set equality over both sides', errs[0] if errs else '',
               details={'(times an own value occurs in other, times a value of other occurs in own) -> (false may, true may)': {str(k): v for k, v in res.items()}})
